@@ -412,6 +412,13 @@ def client_text_case():
     c.router.routeMessage(m)
     if len(hits) != 1:
         return 'installed rule does not match the signal its text describes'
+    # an argument constraint whose value is the empty string is still a constraint: it must reach the daemon as arg0=''
+    del sent[:]
+    del pending[:]
+    c.addMatch(lambda m: None, mtype='signal', member='Note', arg=[(0, '')])
+    text = sent[0][1][0]
+    if set(text.split(',')) != {"type='signal'", "member='Note'", "arg0=''"}:
+        return "rule text %r sent for the constraints type=signal, member=Note, arg0='' (empty string)" % (text,)
     return None
 
 
